@@ -382,6 +382,58 @@ fn eval(name: &str, a: &[Value]) -> Value {
                 Err(e) => json!({"Err": e.to_string()}),
             }
         }
+        // pretty and diff renderer on a failed test case with a matched expectation `text`, an unmatched `text`x and an unexpected line `text`y
+        "render_long_lines" => {
+            use scrut::renderers::renderer::Renderer;
+            let text = str_arg(&a[0]);
+            let surrounding = a[1].as_u64().unwrap_or(5) as usize;
+            let maker = scrut::expectation::ExpectationMaker::new(scrut::rules::registry::RuleRegistry::default());
+            let e0 = maker.parse(&text).unwrap();
+            let e1 = maker.parse(&format!("{}x", text)).unwrap();
+            let diff = scrut::diff::Diff::new(vec![
+                scrut::diff::DiffLine::MatchedExpectation { index: 0, expectation: e0.clone(), lines: vec![(0, format!("{}\n", text).into_bytes())] },
+                scrut::diff::DiffLine::UnmatchedExpectation { index: 1, expectation: e1.clone() },
+                scrut::diff::DiffLine::UnexpectedLines { lines: vec![(1, format!("{}y\n", text).into_bytes())] },
+            ]);
+            let testcase = scrut::testcase::TestCase { title: "t".into(), shell_expression: "cmd".into(), expectations: vec![e0, e1], exit_code: None,
+                line_number: 3, config: scrut::config::TestCaseConfig::empty() };
+            let outcome = scrut::outcome::Outcome { location: None, output: ("", "", Some(0)).into(), testcase,
+                format: scrut::parsers::parser::ParserType::Markdown, escaping: scrut::escaping::Escaper::Unicode,
+                result: Err(scrut::testcase::TestCaseError::MalformedOutput(diff)) };
+            let show = |r: std::thread::Result<anyhow::Result<String>>| match r {
+                Ok(Ok(s)) => json!({"Ok": s}), Ok(Err(e)) => json!({"Err": format!("{:#}", e)}), Err(_) => json!({"panic": true}) };
+            let o1 = std::panic::AssertUnwindSafe(&outcome);
+            let pretty = std::panic::catch_unwind(move || scrut::renderers::pretty::PrettyMonochromeRenderer::new(scrut::renderers::pretty::PrettyColorRenderer {
+                    max_surrounding_lines: surrounding, absolute_line_numbers: false, summarize: false }).render(&[*o1]));
+            let o2 = std::panic::AssertUnwindSafe(&outcome);
+            let diffr = std::panic::catch_unwind(move || scrut::renderers::diff::DiffRenderer::new().render(&[*o2]));
+            json!({"pretty": show(pretty), "diff": show(diffr)})
+        }
+        // every renderer on one failed test case: expectation `want` unmatched, one unexpected output line of the given bytes
+        "render_unexpected_line" => {
+            use scrut::renderers::renderer::Renderer;
+            let line = bytes_arg(&a[0]);
+            let maker = scrut::expectation::ExpectationMaker::new(scrut::rules::registry::RuleRegistry::default());
+            let exp = maker.parse("want").unwrap();
+            let diff = scrut::diff::Diff::new(vec![
+                scrut::diff::DiffLine::UnmatchedExpectation { index: 0, expectation: exp.clone() },
+                scrut::diff::DiffLine::UnexpectedLines { lines: vec![(0, line.clone())] },
+            ]);
+            let testcase = scrut::testcase::TestCase { title: "t".into(), shell_expression: "cmd".into(), expectations: vec![exp], exit_code: None,
+                line_number: 3, config: scrut::config::TestCaseConfig::empty() };
+            let outcome = scrut::outcome::Outcome { location: None,
+                output: scrut::output::Output { stdout: line.clone().into(), stderr: vec![].into(), exit_code: scrut::output::ExitStatus::Code(0) },
+                testcase, format: scrut::parsers::parser::ParserType::Markdown, escaping: scrut::escaping::Escaper::Unicode,
+                result: Err(scrut::testcase::TestCaseError::MalformedOutput(diff)) };
+            let show = |r: anyhow::Result<String>| match r { Ok(s) => json!({"Ok": s}), Err(e) => json!({"Err": format!("{:#}", e)}) };
+            json!({
+                "diff": show(scrut::renderers::diff::DiffRenderer::new().render(&[&outcome])),
+                "pretty": show(scrut::renderers::pretty::PrettyMonochromeRenderer::new(scrut::renderers::pretty::PrettyColorRenderer {
+                    max_surrounding_lines: 5, absolute_line_numbers: false, summarize: true }).render(&[&outcome])),
+                "json": show(scrut::renderers::structured::JsonRenderer::default().render(&[&outcome])),
+                "yaml": show(scrut::renderers::structured::YamlRenderer::default().render(&[&outcome])),
+            })
+        }
         // run one shell expression through the real BashRunner (fresh state directory): {"stdout": bytes, "status": str}
         "bash_run" => {
             use scrut::executors::runner::Runner;
